@@ -444,6 +444,9 @@ func genRender(c *explore.C, d ssa.Doc, p profile) ssa.Render {
 	}
 	r.JunkEvents = c.Choose("r.junkevents", 9)
 	r.Unknown = c.Choose("r.unknown", 5)
+	if len(d.Styles) > 0 {
+		r.SecOrder = c.Choose("r.secorder", 3)
+	}
 	return r
 }
 
@@ -489,11 +492,12 @@ func genCoreStyles(c *explore.C) Case {
 		d.Styles = append(d.Styles, s)
 	}
 	d.EventCols = []string{"LM", "Style"}
-	d.Events = []ssa.Event{{Start: 100, End: 200, Style: "Default", Lines: [][]ssa.Run{{{Text: "x"}}}}}
+	d.Events = []ssa.Event{{Start: 100, End: 200, Style: d.Styles[len(d.Styles)-1].Name, Lines: [][]ssa.Run{{{Text: "x"}}}}}
 	r := ssa.DefaultRender(d)
 	n := 1 + len(d.StyleAttrs)
 	r.StyleOrder = lexPerm(n, c.Choose("r.styleorder", fact(n)))
 	r.Radix = explore.Pick(c, "r.radix", 0, 3)
+	r.SecOrder = c.Choose("r.secorder", 3) // the event references a style: defined before it, after it, or (2 styles) in a second styles section
 	return Case{Doc: d, Render: r}
 }
 
